@@ -436,6 +436,19 @@ def run(ctx, fb, cfg):
     check_unify_rec(ctx, lib, R + "K3K5.unify-rec")
     check_compound(ctx, lib, R + "K2K5.compound")
     check_primitives(ctx, lib, R + "K3.primitives")
+    # "in every answer both sides resolve to the identical term": the answer is walk*(term) renamed
+    # by a reifying map built from the *walked* term (rules shared with C03 / C20)
+    import C03
+    import traversal
+
+    C03.check_reify_goal(ctx, lib, R + "K3.reify-goal")
+    C03.check_smap_reify_var(ctx, lib, R + "K3.fresh-any-per-var")
+    C03.check_reify_threading(ctx, lib, R + "K3.reify-threads")
+    traversal.run_table(ctx, lib, R + "K5.walk-star-is-deep", only=["walk_star"])
+    fn = streams.getfn(ctx, lib, R + "K3.walk-star-of-fields", "<crate::lterm::LTerm as crate::compound::CompoundWalkStar>::compound_walk_star")
+    if fn:
+        t = sym.Evaluator(lib).fn_term(fn)
+        ctx.expect(unify(pat("walk_star(@1, @0)"), tables.result(t)) is not None and not tables.semis(t), R + "K3.walk-star-of-fields", "LTerm|walk_star", site_of(fn), "a term-valued compound field is resolved with walk*; found %s" % show(t, maxdepth=4)[:160])
     check_occurs(ctx, lib, R + "K5.occurs")
     check_walk(ctx, lib, R + "K6.walk")
     check_state_unify(ctx, lib, R + "K3.state-unify")
